@@ -3,6 +3,7 @@
 package p_xbinary
 
 import (
+	"bufio"
 	"bytes"
 	"encoding/hex"
 	"fmt"
@@ -60,8 +61,14 @@ func (it Item) Content() []byte {
 	}
 	out := make([]byte, n)
 	copy(out, head)
-	s := it.Seed
-	for i := len(head); i < n; {
+	fillStream(out, len(head), it.Seed)
+	return out
+}
+
+// fillStream writes the deterministic fill stream of seed into out[from:].
+func fillStream(out []byte, from int, seed uint64) {
+	s, n := seed, len(out)
+	for i := from; i < n; {
 		// splitmix64 expansion of the seed: a pure function of the case, not a random source
 		s += 0x9e3779b97f4a7c15
 		z := s
@@ -73,7 +80,6 @@ func (it Item) Content() []byte {
 			i++
 		}
 	}
-	return out
 }
 
 // Info15 is what the classifier of C15 needs.
@@ -82,7 +88,9 @@ type Info15 struct {
 	Near7    bool // a varint value / a byte-string length within 2 of 2^(7k)
 	Near8    bool // a fixed-width value within 2 of 2^(8k) or of the top of its range
 	ShortDst int64
-	classes  map[string]struct{}
+	// writes through an ObjectsWriter into the sinks of sinkSweep (io.Writer-only, bufio.Writer at every fill level)
+	SinkWrites int64
+	classes    map[string]struct{}
 }
 
 func (i *Info15) class(c string) {
@@ -385,6 +393,11 @@ func run15(c Case15, info *Info15) *vstat.Violation {
 		if !bytes.Equal(bb.Bytes(), enc) {
 			return vstat.V("xbin:writer-bytes", "%s: ObjectsWriter emitted %s, Marshal %s", where, short(bb.Bytes()), short(enc))
 		}
+		// ... and so it does into the other kinds of sink: a writer that is an io.Writer and nothing else, and a
+		// *bufio.Writer that already holds 0..sweepBufio bytes (every amount of free space, none included)
+		if v := sinkSweep(where, cd, enc, info); v != nil {
+			return v
+		}
 		// round trip
 		if cd.body < 0 {
 			if v := checkDecoded(where, cd.decode(enc, false), size); v != nil {
@@ -510,6 +523,58 @@ func run15(c Case15, info *Info15) *vstat.Violation {
 
 func canary(p int) byte { return byte(p*37+11) | 1 }
 
+// sweepBufio is the buffer size of the *bufio.Writer sinks of sinkSweep: larger than the longest prefix / fixed-width
+// value (10 bytes), small enough to visit every fill level for every item.
+const sweepBufio = 16
+
+// sinkSweep: the item goes through an ObjectsWriter (a) into a sink that implements io.Writer and nothing else and
+// (b) into a *bufio.Writer of sweepBufio bytes over such a sink, into which the harness has already written `fill`
+// bytes, for every fill = 0..sweepBufio (values above 64 KiB: 0, 1, sweepBufio-1, sweepBufio). Oracle: the call
+// returns (size, nil) and, after Flush, the sink holds the fill bytes followed by exactly the Marshal encoding.
+func sinkSweep(where string, cd codec, enc []byte, info *Info15) *vstat.Violation {
+	size := cd.size
+	under := &plainDest{}
+	ow := &xbinary.ObjectsWriter{Writer: under}
+	n, err := cd.write(ow)
+	if err != nil || n != size {
+		return vstat.V("xbin:writer-count", "%s: ObjectsWriter into an io.Writer-only sink returned (%d, %v), Marshal wrote %d", where, n, err, size)
+	}
+	if !bytes.Equal(under.b, enc) {
+		return vstat.V("xbin:writer-bytes", "%s: ObjectsWriter emitted %s into an io.Writer-only sink, Marshal %s", where, short(under.b), short(enc))
+	}
+	info.SinkWrites++
+	var pre [sweepBufio]byte
+	for j := range pre {
+		pre[j] = canary(j)
+	}
+	bw := bufio.NewWriterSize(under, sweepBufio)
+	for fill := 0; fill <= sweepBufio; fill++ {
+		if size > 64<<10 && fill > 1 && fill < sweepBufio-1 {
+			continue
+		}
+		under.b = under.b[:0]
+		bw.Reset(under)
+		if k, err := bw.Write(pre[:fill]); k != fill || err != nil {
+			panic(fmt.Sprintf("harness: bufio.Writer.Write returned (%d, %v)", k, err))
+		}
+		ow.Writer = bw
+		n, err := cd.write(ow)
+		if err != nil || n != size {
+			return vstat.V("xbin:writer-count", "%s: ObjectsWriter into a bufio.Writer of %d bytes holding %d returned (%d, %v), Marshal wrote %d", where, sweepBufio, fill, n, err, size)
+		}
+		if err := bw.Flush(); err != nil {
+			panic(fmt.Sprintf("harness: bufio.Writer.Flush returned %v", err))
+		}
+		if len(under.b) < fill || !bytes.Equal(under.b[:fill], pre[:fill]) || !bytes.Equal(under.b[fill:], enc) {
+			got := under.b[min(fill, len(under.b)):]
+			return vstat.V("xbin:writer-bytes", "%s: ObjectsWriter into a bufio.Writer of %d bytes holding %d: after Flush the sink has %d bytes (%d expected), after the first %d: %s, Marshal %s",
+				where, sweepBufio, fill, len(under.b), fill+size, fill, short(got), short(enc))
+		}
+		info.SinkWrites++
+	}
+	return nil
+}
+
 // windowSweep: Marshal into big[8:8+d] for every d in 0..size+1, big being 8 canary bytes, size+1 window bytes and
 // 16 more canary bytes. The windows grow, so whatever a call may legitimately touch (dst[:len(dst)]) is never part of
 // a later "outside" region and no byte has to be restored. Every rejected call costs an error value in the library,
@@ -625,9 +690,12 @@ func checkSurvives(where string, d decoded, src []byte, start, prefix int, newBu
 // =============================================================================================
 // C16
 
-// Case16 is one input byte string (hex).
+// Case16 is one input byte string: hex(In) followed by Fill bytes of the deterministic fill stream of Seed (so an
+// input of hundreds of KiB is still a few bytes of JSON).
 type Case16 struct {
-	In string `json:"in"`
+	In   string `json:"in"`
+	Fill int    `json:"fill,omitempty"`
+	Seed uint64 `json:"seed,omitempty"`
 }
 
 // Bytes returns the input.
@@ -636,7 +704,13 @@ func (c Case16) Bytes() []byte {
 	if err != nil {
 		panic("bad hex in Case16: " + err.Error())
 	}
-	return b
+	if c.Fill <= 0 {
+		return b
+	}
+	out := make([]byte, len(b)+c.Fill)
+	copy(out, b)
+	fillStream(out, len(b), c.Seed)
+	return out
 }
 
 // NewCase16 wraps raw bytes.
@@ -737,6 +811,20 @@ func (i Info16) Classes() []string {
 	}
 	if i.Len < 8 {
 		c = append(c, "shorter_than_8")
+	}
+	switch {
+	case i.Len >= 64<<10:
+		c = append(c, "input_ge_64KiB")
+	case i.Len >= 4<<10:
+		c = append(c, "input_4KiB_to_64KiB")
+	}
+	if i.Terminated && i.Val <= uint64(i.Remaining) {
+		switch {
+		case i.Val > 64<<10:
+			c = append(c, "complete_record_body_gt_64KiB")
+		case i.Val >= 4<<10:
+			c = append(c, "complete_record_body_4KiB_to_64KiB")
+		}
 	}
 	return c
 }
